@@ -151,6 +151,8 @@ pub fn run_child<P: Property>(tier: Tier, seed: u64, shard: usize, nshards: usiz
         file: std::fs::OpenOptions::new().create(true).write(true).truncate(true).open(journal_path).ok(),
     });
     let violation: RefCell<Option<Violation>> = RefCell::new(None);
+    // maintenance aid (never used by a registered command): keep going after violations and tally them by sub-check
+    let survey = std::env::var("VERIF_SURVEY").is_ok();
 
     // 1. exhaustive enumerations
     let mut completed = true;
@@ -169,6 +171,17 @@ pub fn run_child<P: Property>(tier: Tier, seed: u64, shard: usize, nshards: usiz
                 s.res.evaluations += 1;
                 s.res.exhaustive_evaluations += 1;
                 *s.res.known_hits.entry(id).or_insert(0) += 1;
+                true
+            }
+            Verdict::Violation(f) if survey => {
+                let mut s = stats.borrow_mut();
+                s.res.evaluations += 1;
+                let key = format!("SURVEY-VIOLATION {}", f.check);
+                let n = s.res.labels.entry(key.clone()).or_insert(0);
+                *n += 1;
+                if *n == 1 {
+                    s.res.samples.push((key, serde_json::json!({"case": serde_json::from_slice::<serde_json::Value>(&json).unwrap(), "library": f.library, "oracle": f.oracle})));
+                }
                 true
             }
             Verdict::Violation(f) => {
@@ -221,6 +234,17 @@ pub fn run_child<P: Property>(tier: Tier, seed: u64, shard: usize, nshards: usiz
                         let mut s = stats.borrow_mut();
                         s.res.evaluations += 1;
                         *s.res.known_hits.entry(id).or_insert(0) += 1;
+                    }
+                    Ok(())
+                }
+                Verdict::Violation(f) if survey => {
+                    let mut s = stats.borrow_mut();
+                    s.res.evaluations += 1;
+                    let key = format!("SURVEY-VIOLATION {}", f.check);
+                    let n = s.res.labels.entry(key.clone()).or_insert(0);
+                    *n += 1;
+                    if *n == 1 {
+                        s.res.samples.push((key, serde_json::json!({"case": serde_json::from_slice::<serde_json::Value>(&json).unwrap(), "library": f.library, "oracle": f.oracle})));
                     }
                     Ok(())
                 }
@@ -321,8 +345,8 @@ pub fn run_parent<P: Property>(args: &ParentArgs, out: &mut dyn FnMut(String)) -
                 exit = 2;
                 continue;
             };
-            let case = v.get("case").cloned().unwrap_or(serde_json::Value::Null);
-            replayed += 1;
+            let case = v.get("case").cloned().or_else(|| v.get("cases").and_then(|c| c.as_array()).and_then(|a| a.first().cloned())).unwrap_or(serde_json::Value::Null);
+            replayed += v.get("cases").and_then(|c| c.as_array()).map(|a| a.len() as u64).unwrap_or(1);
             let code = run_replay_child(&args.exe, P::ID, args.tier, &f.display().to_string(), &args.root);
             match code {
                 ChildEnd::Exit(0, lines) => {
@@ -411,7 +435,7 @@ pub fn run_parent<P: Property>(args: &ParentArgs, out: &mut dyn FnMut(String)) -
                         *merged.excluded.entry(k).or_insert(0) += v;
                     }
                     for s in r.samples {
-                        if merged.samples.len() < 8 && !merged.samples.iter().any(|(k, _)| *k == s.0) {
+                        if (merged.samples.len() < 8 || s.0.starts_with("SURVEY")) && !merged.samples.iter().any(|(k, _)| *k == s.0) {
                             merged.samples.push(s);
                         }
                     }
@@ -542,6 +566,10 @@ pub fn run_parent<P: Property>(args: &ParentArgs, out: &mut dyn FnMut(String)) -
     ));
     for l in &known_lines {
         out(l.clone());
+    }
+    for (k, v) in merged.labels.iter().filter(|(k, _)| k.starts_with("SURVEY")) {
+        let sample = merged.samples.iter().find(|(sk, _)| sk == k).map(|(_, v)| clip(&v.to_string(), 600)).unwrap_or_default();
+        out(format!("{} x{} e.g. {}", k, v, sample));
     }
     for m in &inconclusive {
         out(format!("INCONCLUSIVE: {}", m));
